@@ -176,7 +176,7 @@ pub fn all_history(w: &World, errs: &mut Vec<String>) -> Vec<Hist> {
     let mut out: Vec<Hist> = vec![];
     let mut start: Option<u64> = None;
     loop {
-        match w.q::<h::AllHistoryResponse, _>(HUB, &h::QueryMsg::AllHistory { start_from: start, limit: Some(HISTORY_PAGE) }) {
+        match w.q::<h::AllHistoryResponse, _>(HUB, &serde_json::json!({"all_history": {"start_from": start, "limit": HISTORY_PAGE}})) {
             Ok(r) => {
                 // until a page brings nothing new (page caps and an inclusive `start_from` are tolerated)
                 let fresh: Vec<Hist> = r.history.iter().map(to_hist).filter(|h| !out.iter().any(|o: &Hist| o.batch_id == h.batch_id)).collect();
@@ -216,7 +216,7 @@ pub fn history_probes(w: &World, n_hist: usize, errs: &mut Vec<String>) -> Vec<(
     asks.push((s, limits[next(7) as usize]));
     let mut out = vec![];
     for (s, l) in asks {
-        match w.q::<h::AllHistoryResponse, _>(HUB, &h::QueryMsg::AllHistory { start_from: s, limit: l }) {
+        match w.q::<h::AllHistoryResponse, _>(HUB, &serde_json::json!({"all_history": {"start_from": s, "limit": l}})) {
             Ok(r) => out.push((s, l, r.history.iter().map(to_hist).collect())),
             // a hub may refuse an odd page request (an oversized limit, a start beyond the end): only answers are judged
             Err(_) => {}
@@ -369,7 +369,7 @@ pub fn take(w: &World) -> Snap {
     let mut requests = BTreeMap::new();
     let mut failed_requests: Vec<(String, String)> = vec![];
     for a in known.iter() {
-        match w.q::<h::UnbondRequestsResponse, _>(HUB, &h::QueryMsg::UnbondRequests { address: a.clone() }) {
+        match w.q::<h::UnbondRequestsResponse, _>(HUB, &serde_json::json!({"unbond_requests": {"address": a.clone()}})) {
             Ok(r) => {
                 if !r.requests.is_empty() {
                     requests.insert(a.clone(), r.requests.iter().map(|(b, x, y)| (*b, x.u128(), y.u128())).collect());
@@ -413,7 +413,7 @@ pub fn take(w: &World) -> Snap {
     let mut holders_enumerated = vec![];
     let mut start: Option<String> = None;
     loop {
-        match w.q::<basset::reward::HoldersResponse, _>(REWARD, &basset::reward::QueryMsg::Holders { start_after: start.clone(), limit: Some(ENUM_PAGE) }) {
+        match w.q::<basset::reward::HoldersResponse, _>(REWARD, &serde_json::json!({"holders": {"start_after": start.clone(), "limit": ENUM_PAGE}})) {
             Ok(r) => {
                 let n = r.holders.len();
                 if n == 0 {
@@ -437,8 +437,8 @@ pub fn take(w: &World) -> Snap {
     haddrs.extend(bsei.enumerated.iter().cloned());
     let mut holders = BTreeMap::new();
     for a in haddrs {
-        let hr = w.q::<basset::reward::HolderResponse, _>(REWARD, &basset::reward::QueryMsg::Holder { address: a.clone() });
-        let ar = w.q::<basset::reward::AccruedRewardsResponse, _>(REWARD, &basset::reward::QueryMsg::AccruedRewards { address: a.clone() });
+        let hr = w.q::<basset::reward::HolderResponse, _>(REWARD, &serde_json::json!({"holder": {"address": a.clone()}}));
+        let ar = w.q::<basset::reward::AccruedRewardsResponse, _>(REWARD, &serde_json::json!({"accrued_rewards": {"address": a.clone()}}));
         match (hr, ar) {
             (Ok(hh), Ok(acc)) => {
                 holders.insert(
